@@ -99,6 +99,17 @@ Theorem C19_map_append_bst : forall (K : Type) (cmp : K -> K -> comparison),
 Proof. exact append_bst. Qed.
 Print Assumptions C19_map_append_bst.
 
+(* Foldable (Map k): foldr / foldl visit the values in increasing key order *)
+Theorem C19_map_foldr_key_order : forall (K V B : Type) (f : V -> B -> B) z (m : Map K V),
+  MapGen.foldr f z m = fold_right f z (MapGen.values m).
+Proof. exact foldr_key_order. Qed.
+Print Assumptions C19_map_foldr_key_order.
+
+Theorem C19_map_foldl_key_order : forall (K V B : Type) (f : B -> V -> B) z (m : Map K V),
+  MapGen.foldl f z m = fold_left f (MapGen.values m) z.
+Proof. exact foldl_key_order. Qed.
+Print Assumptions C19_map_foldl_key_order.
+
 (* ---- std.list ---- *)
 
 Theorem C19_sort_fuel_enough : forall (A : Type) (cmp : A -> A -> comparison) fuel xs,
